@@ -125,7 +125,7 @@ func makeMetaInfo() *core.MetaInfo {
 }
 
 func setLimits() error {
-	debug.SetMemoryLimit(512 << 20)
+	debug.SetMemoryLimit(1 << 30)
 	b, err := os.ReadFile("/proc/self/statm")
 	if err != nil {
 		return err
@@ -196,9 +196,26 @@ type connEvents struct {
 	mu     sync.Mutex
 	closed int
 	cond   *sync.Cond
+	byConn map[*conn.Conn]chan struct{}
 }
 
-func (e *connEvents) ConnClosed(*conn.Conn) {
+// closedCh is closed once kraken reports ConnClosed for cn.
+func (e *connEvents) closedCh(cn *conn.Conn) chan struct{} {
+	e.mu.Lock()
+	defer e.mu.Unlock()
+	if e.byConn == nil {
+		e.byConn = map[*conn.Conn]chan struct{}{}
+	}
+	ch, ok := e.byConn[cn]
+	if !ok {
+		ch = make(chan struct{})
+		e.byConn[cn] = ch
+	}
+	return ch
+}
+
+func (e *connEvents) ConnClosed(cn *conn.Conn) {
+	close(e.closedCh(cn))
 	e.mu.Lock()
 	e.closed++
 	if e.cond != nil {
@@ -271,10 +288,12 @@ type tap struct {
 	stop  chan struct{}
 	taken int
 	done  int
+
+	closedCh chan struct{}
 }
 
-func newTap(cn *conn.Conn) *tap {
-	t := &tap{c: cn, out: make(chan *conn.Message), stop: make(chan struct{})}
+func newTap(cn *conn.Conn, ev *connEvents) *tap {
+	t := &tap{c: cn, out: make(chan *conn.Message), stop: make(chan struct{}), closedCh: ev.closedCh(cn)}
 	go t.pump()
 	return t
 }
@@ -374,15 +393,30 @@ func (t *tap) Send(msg *conn.Message) error {
 	}
 	t.mu.Lock()
 	t.sends = append(t.sends, rec)
+	closed := t.closed
 	t.mu.Unlock()
+	if closed {
+		// Conn.Send on a closed Conn picks at random between "conn closed" and
+		// queueing the message (select over the closed done channel and the
+		// buffered sender channel). After the dispatcher itself closed the
+		// connection the harness always takes the "conn closed" answer.
+		return errors.New("conn closed")
+	}
 	return t.c.Send(msg)
 }
 func (t *tap) Receiver() <-chan *conn.Message { return t.out }
+// Close is called by the dispatcher to end the connection. Conn.Close only
+// starts the shutdown (a goroutine closes the done channel), so whether a Send
+// right after it still succeeds is a race inside kraken; waiting for the
+// ConnClosed event here picks the schedule in which the close has taken effect.
 func (t *tap) Close() {
 	t.mu.Lock()
 	t.closed = true
 	t.mu.Unlock()
 	t.c.Close()
+	if t.closedCh != nil {
+		<-t.closedCh
+	}
 }
 func (t *tap) snapshot() ([]sendRec, bool) {
 	t.mu.Lock()
@@ -776,7 +810,7 @@ func (v *victim) stopTaps() {
 // dispatched, or the peer was removed (connection ended).
 func (c *child) waitQuiet(v *victim, t *tap) {
 	removed := v.dev.ch(t.c.PeerID())
-	deadline := time.Now().Add(30 * time.Second)
+	deadline := time.Now().Add(90 * time.Second)
 	for i := 0; ; i++ {
 		select {
 		case <-removed:
@@ -828,7 +862,7 @@ func (c *child) accept(v *victim, nc net.Conn) (tp *tap, outcome string) {
 	}
 	v.conns++
 	cn.Start()
-	tp = newTap(cn)
+	tp = newTap(cn, v.cev)
 	v.taps = append(v.taps, tp)
 	if err := v.d.AddPeer(cn.PeerID(), cn.IsPeerOrigin(), pc.Bitfield(), tp); err != nil {
 		cn.Close()
